@@ -81,7 +81,20 @@ def pathFn (fn : String) (args : List String) : Option String :=
     pure (line3 (showOutcome showStr (expand (envLookup env) s)) "-" "-")
   | "abs_memfs", [c, a, e] => do
     let cwd ← strOfArg c; let s ← strOfArg a; let env ← envOfArg e
-    pure (line3 (showOutcome showStr (absWith (envLookup env) cwd s)) "-" "-")
+    -- spec (C05): lexical join of the expanded, protocol-trimmed argument onto cwd, Go-cleaned;
+    -- ParentNotFound iff the relative argument climbs above the root
+    let sp : String :=
+      if s = [] then "err Empty"
+      else match expand (envLookup env) s with
+        | .ok e =>
+          let x := Spec.goClean (trimProtocol e)
+          let ups := ((splitSlash x).takeWhile (· == ['.', '.'])).length
+          let depth := ((splitSlash cwd).filter (· ≠ [])).length
+          if !isRooted x ∧ ups > depth then "err ParentNotFound"
+          else okStr (Spec.goClean (push cwd (trimProtocol e)))
+        | .err k => "err " ++ k.name
+        | _ => "-"
+    pure (line3 (showOutcome showStr (absWith (envLookup env) cwd s)) sp "-")
   | _, _ => none
 
 end Driver
